@@ -11,7 +11,7 @@ import (
 
 func init() {
 	prop("C11",
-		"(a) the source runner's maximum forwarded timestamp only moves forward; (b) its watermark is that maximum minus (allowed lateness + 1ns), so it never reaches the maximum; (c) the maximum is advanced for every keyed event before the event is routed and the watermark is stamped on the same goroutine when the watermark placeholder is sent; (d) the operator's composite watermark is the minimum over all upstream source runners, each initialised to the epoch, recomputed after recording the sender's new value; (e) the handler is told that composite watermark; (f) no timer later than the composite fires (C10.a).",
+		"(a) the source runner's maximum forwarded timestamp only moves forward; (b) its watermark is that maximum minus (allowed lateness + 1ns), so it never reaches the maximum; (c) the maximum is advanced for every keyed event before the event is routed and the watermark is stamped on the same goroutine when the watermark placeholder is sent; (d) the operator's composite watermark is the minimum over all upstream source runners, each initialised to the epoch, recomputed after recording the sender's new value, and no upstream is ever removed from the set the minimum ranges over; (e) the handler is told that composite watermark; (f) no timer later than the composite fires (C10.a).",
 		"'follows the timestamp closely' (a progress / timing clause); that watermarks arrive at all.")
 
 	register(&Obligation{ID: "C11.a", Props: []string{"C11"}, Template: "monotone",
@@ -484,7 +484,49 @@ func init() {
 			if !okInit {
 				r.Fail(nr.Name()+":epoch-init", nr.Decl.Pos(), nil, "upstream watermarks are not initialised to time.Unix(0, 0) for every source runner id: a runner that has not reported would not hold the minimum back")
 			}
-			// the upstreams map built there is the one stored
+			// the set of upstreams never shrinks: a runner that has stopped reporting (finished, slow,
+			// gone) keeps holding the minimum at its last watermark. The field is written only by the
+			// constructor and by AdvanceWatermark's element store.
+			for _, fa := range r.fieldAccesses(ups) {
+				sc := r.P.ScopeAt(fa.Use.Ident.Pos())
+				where := r.scopeName(sc)
+				r.Site(fa.Use.Ident.Pos(), "use of TimerRegistry.upstreams in "+where)
+				bad := ""
+				switch fa.Kind {
+				case "delete":
+					bad = "an upstream is deleted"
+				case "assign":
+					if where != nr.Name() {
+						bad = "the upstreams map is replaced"
+					}
+				case "addr":
+					bad = "the address of the upstreams map is taken"
+				case "elem-store":
+					if where != nr.Name() && where != f.Name() {
+						bad = "an upstream's watermark is stored outside AdvanceWatermark"
+					}
+				case "read":
+					// an argument of clear / maps.DeleteFunc / maps.Clear
+					path := r.P.PathTo(fa.Use.File, fa.Use.Ident.Pos(), fa.Use.Ident.End())
+					for k := len(path) - 1; k >= 0; k-- {
+						call, isCall := path[k].(*ast.CallExpr)
+						if !isCall {
+							continue
+						}
+						ci := fa.Use.Pkg.TypesInfo
+						if id, isID := ast.Unparen(call.Fun).(*ast.Ident); isID && id.Name == "clear" && ci.Uses[id] == types.Universe.Lookup("clear") {
+							bad = "the upstreams map is cleared"
+						}
+						if _, isDel := isCallToNamed(ci, call, "maps", "DeleteFunc"); isDel {
+							bad = "upstreams are deleted (maps.DeleteFunc)"
+						}
+						break
+					}
+				}
+				if bad != "" {
+					r.Fail("TimerRegistry.upstreams:shrinks:"+where, fa.Use.Ident.Pos(), nil, "%s in %s: the composite watermark is the minimum over ALL upstream source runners; once a runner is dropped the minimum jumps past its last watermark, timers later than the true minimum fire and the handler is told a watermark that runner never reached", bad, where)
+				}
+			}
 			// iteru.MinFunc keep-lowest
 			mf := r.P.Func("util/iteru", "MinFunc")
 			mi := mf.Pkg.TypesInfo
